@@ -126,6 +126,7 @@ type Engine struct {
 	lastGot          []Ev
 	rmOrder          []ecs.Entity
 	forceQ           bool
+	extraRes         bool // resource registry was filled up by the limit test (ledger check of the order is skipped)
 	pending          *pendingDump
 	pendingRetention bool
 	noHook           bool // never touch the package-level hook (several engines on real goroutines)
